@@ -30,6 +30,7 @@ type Config struct {
 	Seed     int64
 	Debug    bool
 	Solver   string
+	XCheck   string // second solver for assertion queries ("" = off)
 }
 
 const modPath = "github.com/octohelm/gengo"
@@ -177,6 +178,14 @@ func Open(cfg Config, pkgPaths []string) (*Session, error) {
 				return
 			}
 			ip.InitAllow = initAllowed
+			if cfg.XCheck != "" {
+				if err := ip.EnableCrossCheck(cfg.XCheck, 60000); err != nil {
+					mu.Lock()
+					firstErr = err
+					mu.Unlock()
+					return
+				}
+			}
 			if os.Getenv("GOSYM_FORKSITES") != "" {
 				ip.ForkSites = map[string]int{}
 			}
@@ -255,6 +264,7 @@ type SolverTotals struct {
 	SolverSec                                       float64
 	Steps                                           int64
 	Decides, FastPath, Forks, EnumQueries           int
+	XChecked, XDisagree                             int
 }
 
 func (s *Session) SolverTotals() SolverTotals {
@@ -273,6 +283,8 @@ func (s *Session) SolverTotals() SolverTotals {
 		t.FastPath += w.Stats.FastPath
 		t.Forks += w.Stats.Forks
 		t.EnumQueries += w.Stats.EnumQueries
+		t.XChecked += w.Stats.XChecked
+		t.XDisagree += w.Stats.XDisagree
 	}
 	return t
 }
